@@ -597,8 +597,22 @@ pub fn last_panic() -> String {
 
 /// Run `f`, catching a panic. Returns Err(message) on panic.
 pub fn catch<R>(f: impl FnOnce() -> R) -> Result<R, String> {
+    let _ = LAST_PANIC.try_with(|p| p.borrow_mut().clear());
     match std::panic::catch_unwind(std::panic::AssertUnwindSafe(f)) {
         Ok(r) => Ok(r),
-        Err(_) => Err(last_panic()),
+        Err(payload) => {
+            let m = last_panic();
+            if !m.is_empty() {
+                return Err(m);
+            }
+            // the panic was raised on another thread (a pool worker) and re-thrown here: the hook stored its
+            // message in that thread's slot, so take it from the payload
+            let text = payload
+                .downcast_ref::<&str>()
+                .map(|s| s.to_string())
+                .or_else(|| payload.downcast_ref::<String>().cloned())
+                .unwrap_or_else(|| "panic with a non-string payload".into());
+            Err(format!("{text} (raised on another thread)"))
+        }
     }
 }
